@@ -30,18 +30,29 @@ PROOFS = [
           assumed=['find_token_name(get_token_name(t)) == t (name table of token_enum.h)', 'the loader side: contract of process_option_line (C16-K5)'],
           mutants=[('macro_else_written_as_close', r'"macro-else %\*\.s%s\\n"', '"macro-close %*.s%s\\\\n"', 'postcondition'),
                    ('set_without_token_name', r'fprintf\(pfile, "set %s %\*\.s%s\\n",\n\s*tn,', 'fprintf(pfile, "set %s %*.s%s\\\\n",\n                 "x",', 'postcondition|pointer')]),
+    Proof('save_string_value', impl='contracts/C15/strval.impl.cpp', spec='contracts/C15/strval.spec.c', harness='h_save_string_value', enforce='save_string_value/save_string_value_contract', canaries=2,
+          rules={'save_string_value': [('D1?', {'__auto__': {}})]}, partial_loops=True, fallback_unwind=2,
+          loops=[dict(fn='save_string_value', id=0, vars=['__i0'], assigns='__i0, g_rd_state, g_dec_n, g_dec_at_K',
+                      inv='__i0 <= VAL_SIZE && g_rd_state == 1 && g_dec_n == __i0 && (g_dec_K < __i0 ==> g_dec_at_K == (int)VAL_DATA[g_dec_K])', decreases='VAL_SIZE - __i0')],
+          functions=['option.cpp:save_option_file (fragment: the OT_STRING branch)'], expect=['save_string_value_contract.postcondition', 'loop_invariant_step'],
+          assumed=['reader model: quoted-string branch of split_args() (a backslash is erased, the character after it is taken literally, the string ends at the first unescaped quote)'],
+          mutants=[('quote_not_escaped', r"\|\| ch == '\"'\)", ')', 'postcondition|loop_invariant'),
+                   ('backslash_not_escaped', r"if \(  ch == '\\\\'\n\s*\|\| ch == '\"'\)", "if (ch == '\"')", 'postcondition|loop_invariant')]),
 ]
+for _p in PROOFS:
+    if _p.name == 'save_string_value':
+        _p.macro_headers = ['../C15/strval_macros.h']
 EXPLANATION = ('Kernel of C15 (enumerated values): option_enum.cpp is regenerated on every run from /repo (scripts/make_option_enum.py + src/option_enum.cpp.in + src/option.h, as '
                'the build does) and its real to_string()/convert_string() are proved inverse for every value of bool, iarf_e, line_end_e and token_pos_e; unknown words are refused without touching the target.')
-K = ['K3 print_custom_keywords (one iteration): every dynamic keyword is written as a line the loader maps back to the same (keyword, token) pair: `type K`, `macro-open|close|else K`, `set <token name> K` (reader side: contract of process_option_line, C16-K5)', 'K1 convert_string(to_string(v)) == v for every enumerated value', 'K1b unknown word => false, target unchanged']
-G = ['string values: the quoted-string writer of save_option_file composed with split_args (std::string heavy) is NOT covered; the property itself quotes that values containing \\ or " do not round-trip',
+K = ['K2 save_option_file (OT_STRING branch): what is written for a string value, read by the quoted-string branch of split_args (model), is the value - for a value of any length, every character', 'K3 print_custom_keywords (one iteration): every dynamic keyword is written as a line the loader maps back to the same (keyword, token) pair: `type K`, `macro-open|close|else K`, `set <token name> K` (reader side: contract of process_option_line, C16-K5)', 'K1 convert_string(to_string(v)) == v for every enumerated value', 'K1b unknown word => false, target unchanged']
+G = ['string values: the reader side (split_args) is a model read from the code, not verified; formerly: NOT covered; the property itself quotes that values containing \\ or " do not round-trip',
      'numeric values (strtol / to_string of libc), file_ext mappings (print_extensions), include directives: NOT covered',
      'save_option_file writes each option through these to_string functions and load_option_file reads through convert_string (process_option_line): not under contract',
      '"byte-identical formatting under the reloaded config" follows only if every option value is restored: NOT covered beyond enumerated values']
 
 sys.path.insert(0, os.path.join(os.path.dirname(os.path.abspath(__file__)), '..', '..', 'tools'))
 import replay_lib  # noqa: E402
-REPLAY = replay_lib.make_replay(replay_lib.scenario_custom_keywords_roundtrip, replay_lib.scenario_enum_roundtrip)
+REPLAY = replay_lib.make_replay(replay_lib.scenario_custom_keywords_roundtrip, replay_lib.scenario_string_value_roundtrip, replay_lib.scenario_enum_roundtrip)
 
 
 def static_facts(repo):
@@ -49,4 +60,5 @@ def static_facts(repo):
     import re
     t = open(os.path.join(repo, 'src/keywords.cpp')).read()
     mo = re.search(r'void print_custom_keywords\(FILE \*pfile\)\n\{\n   for \(const auto &keyword_pair : dkwm\)\n   \{\n      E_Token tt = keyword_pair\.second;', t)
-    return [('print_custom_keywords: the sliced loop body is the whole body of `for (const auto &keyword_pair : dkwm)`, the only statement of the function', bool(mo), '')]
+    mo2 = re.search(r'fprintf\(pfile, "%s%\*\.s= ", option->name\(\), pad, " "\);\n\n         if \(option->type\(\) == OT_STRING\)', t2 := open(os.path.join(repo, 'src/option.cpp')).read())
+    return [('save_option_file: the OT_STRING branch directly follows the write of `name = `', bool(mo2), ''), ('print_custom_keywords: the sliced loop body is the whole body of `for (const auto &keyword_pair : dkwm)`, the only statement of the function', bool(mo), '')]
